@@ -300,7 +300,7 @@ static Reg r_elldeg("elldeg", [](const Args& a) {
     double cnd = 1 + cf + (i == 3 && !isinfq(T) && T > 0 ? (double)fabsq(asinhq(T) - asinhq(ex)) : 0);
     LD tol = 4 * ulp((double)want) + 32 * EPS * cnd * sc * (180 / PIl) + 4 * DMIN;
     if (!(fabsl((LD)std::fabs(out[i]) - want) <= tol && (out[i] == 0 || std::signbit(out[i]) == std::signbit(phi))))
-      bad("latitude-degrees", std::string(AUXN[i + 1]) + "(phi=" + scid(phi) + " deg) = " + scid(out[i]) + " want " + sci(want) + " (f=" + scid(f) + ")");
+      bad("latitude-degrees", aux_class(f, 0, i + 1) + std::string(AUXN[i + 1]) + "(phi=" + scid(phi) + " deg) = " + scid(out[i]) + " want " + sci(want) + " (f=" + scid(f) + ")");
     // inverse composes to the identity, to the accuracy the degree representation of the intermediate allows
     LD dl = (T == 0 || isinfq(T)) ? 1 : (LD)(auxdlog(E, i + 1, T));                // d log tan(aux) / d log tan(phi)
     LD scphi = (LD)(T / (1 + T * T)); if (isinfq(T)) scphi = 0;
@@ -520,6 +520,8 @@ static Reg r_carlson("carlson", [](const Args& a) {
   emit(o);
 });
 
+#include "C15_model_ops.hpp"
+
 // ----------------------------------------------------------------------------------------------------------------
 // generators
 // ----------------------------------------------------------------------------------------------------------------
@@ -580,6 +582,13 @@ void gv::generate(const std::string& tier, uint64_t seed) {
           run("auxser", {hx(f), std::to_string(from), std::to_string(to), hx(zn.y()), hx(zn.x())});
         }
       }
+      // the same conversions for the Lean model of the exact methods (ToAuxiliary with derivative, FromAuxiliary with count, Convert)
+      run("m15_toaux", {hx(f), std::to_string(from), hx(sy * y), hx(sx * x)});
+      run("m15_fromaux", {hx(f), std::to_string(from), hx(sy * z.y()), hx(sx * z.x())});
+      if (i % 3 == 0) for (int to = 0; to < 6; ++to) run("m15_conv", {hx(f), std::to_string(from), std::to_string(to), hx(sy * z.y()), hx(sx * z.x())});
+      else run("m15_conv", {hx(f), std::to_string(from), std::to_string(r.irange(0, 5)), hx(sy * z.y()), hx(sx * z.x())});
+      { double zd = r.irange(0, 2) ? r.range(-90, 90) + 360 * r.irange(-3, 3) : r.pick(std::vector<double>{0.0, 90.0, -90.0, 180.0, -180.0, 270.0, 360.0, 450.0, 540.0, -540.0, 89.999999999999, 1e-300, 720.0, 1e17});
+        run("m15_convdeg", {hx(f), std::to_string(from), std::to_string(r.irange(0, 5)), std::fabs(f) <= 1 / 150.0 && r.coin() ? "0" : "1", hx(zd)}); }
       // laws: a neighbouring angle (a few ulp up in the tangent) and an independent one
       int to = r.irange(0, 5); bool exact = !(std::fabs(f) <= 1 / 150.0) || r.coin();
       double y2 = nextup(std::fabs(z.y()), r.irange(0, 3)), x2 = std::fabs(z.x());
@@ -597,6 +606,29 @@ void gv::generate(const std::string& tier, uint64_t seed) {
     if (std::fabs(phi) <= 90) { if (i % 4 == 0) run("ellmeas", {hx(a), hx(f), hx(phi), hx(azi), "x"}); else run("ellmeas", {hx(a), hx(f), hx(phi), hx(azi)}); }
     run("elldeg", {hx(a), hx(f), hx(phi)});
     if (i < 2) sample(current_op());
+    run("m15_ell", {hx(a), hx(f), hx(phi), hx(azi), hx(r.irange(0, 3) ? r.range(-200, 200) : r.pick(std::vector<double>{0.0, 1e-300, 1e5, -1e5, 720.0}))});
+    run("m15_ctor", {hx(a), hx(f)});
+    { double y, x; std::string sa; aux_angle(r, f < 0, y, x, sa); run("m15_axes", {hx(a), hx(a * (1 - f)), hx(y), hx(x)}); }
+  }
+  run("m15_wgs84", {}); run("m15_reset0", {});
+  // latitude indices out of range: NaN from Convert / ToAuxiliary / FromAuxiliary
+  for (int k : {-1, 6, 7, -100}) { std::string ks = std::to_string(k); stratum("aux-index-out-of-range");
+    run("m15_conv", {hx(0.1), ks, "2", hx(0.6), hx(0.8)}); run("m15_conv", {hx(0.1), "2", ks, hx(0.6), hx(0.8)});
+    run("m15_toaux", {hx(0.1), ks, hx(0.6), hx(0.8)}); run("m15_fromaux", {hx(0.1), ks, hx(0.6), hx(0.8)}); }
+  run("m15_ctor", {hx(-1.0), hx(0.1)}); run("m15_ctor", {hx(1.0), hx(1.0)}); run("m15_ctor", {hx(INFINITY), hx(0.0)}); run("m15_ctor", {hx(1.0), hx(NAN)});
+  run("m15_axes", {hx(1.0), hx(0.0), hx(1.0), hx(1.0)}); run("m15_axes", {hx(1.0), hx(1.0), hx(1.0), hx(1.0)});
+  // --- AuxAngle, Clenshaw
+  for (long i = 0; i < (th ? 4000 : 300); ++i) {
+    double y, x, qy, qx; std::string s1, s2; aux_angle(r, false, y, x, s1); aux_angle(r, false, qy, qx, s2);
+    if (r.coin()) y = -y; if (r.irange(0, 3) == 0) x = -x; if (r.coin()) qy = -qy; if (r.irange(0, 3) == 0) qx = -qx;
+    switch (r.irange(0, 15)) { case 0: y = 0; break; case 1: x = 0; break; case 2: y = -0.0; break; case 3: x = -0.0; break; case 4: y = INFINITY; break; case 5: x = INFINITY; break;
+      case 6: y = 0; x = 0; break; case 7: y = x = INFINITY; break; case 8: y = NAN; break; case 9: y = 1e308; x = 1.7e308; break; case 10: y = 1.7e308; x = 1e-10; break; case 11: qy = 0; break; case 12: qy = -0.0; qx = -1; break; default: break; }
+    double d = r.irange(0, 2) ? r.range(-720, 720) : r.pick(std::vector<double>{0.0, -0.0, 90.0, 180.0, -180.0, 45.0, 1e-300, 5e-324, 360.0, 1e10, 700.0, 89.99999999});
+    stratum("auxangle-" + s1);
+    run("m15_ang", {hx(y), hx(x), hx(qy), hx(qx), hx(d)});
+    double zd = r.range(-180, 180), sz, cz; Math::sincosd(zd, sz, cz);
+    std::vector<std::string> ca = {r.coin() ? "1" : "0", hx(sz), hx(cz)}; int K = r.irange(0, 8); for (int k = 0; k < K; ++k) ca.push_back(hx(r.range(-1, 1) * std::pow(10.0, -k)));
+    run("m15_clen", ca);
   }
   // --- elliptic integrals and functions
   for (long i = 0; i < nell; ++i) {
@@ -636,6 +668,26 @@ void gv::generate(const std::string& tier, uint64_t seed) {
     if (i < 2) sample(current_op());
     if (i % 4 == 0) run("ellcomp", par);
     if (i % 3 == 0) { double d = r.coin() ? std::pow(10.0, -r.range(0, 14)) : r.range(0, 1); run("ellmono", with({phi, phi + d * std::fmax(1.0, std::fabs(phi))})); }
+    // --- the same parameters for the Lean model of EllipticFunction
+    if (i % 2 == 0) {
+      run("m15_reset", par);
+      if (i % 8 == 0) run("m15_reset2", {hx(k2), hx(a2)});
+      run("m15_phi", with({phi}));
+      { double sn = std::sin(phi), cn = std::cos(phi);
+        switch (r.irange(0, 11)) { case 0: sn = 0; cn = 1; break; case 1: sn = -0.0; cn = 1; break; case 2: sn = 0; cn = -1; break; case 3: sn = -0.0; cn = -1; break; case 4: sn = 1; cn = 0; break;
+          case 5: sn = -1; cn = 0; break; case 6: sn = 1; cn = -0.0; break; case 7: sn = -1; cn = -0.0; break; default: break; }
+        EllipticFunction e1(k2, a2, kp2, ap2);
+        run("m15_inc", with({sn, cn, e1.Delta(sn, cn)})); }
+      { double ang = r.irange(0, 2) ? r.range(-1000, 1000) : 90.0 * r.irange(-12, 12);
+        if (r.irange(0, 9) == 0) ang = r.pick(std::vector<double>{180.0, -180.0, 540.0, -540.0, 900.0, 360.0, 0.0, -0.0, 1e-300, 179.99999999999997, 180.00000000000003, 1e16, 90.0, 270.0});
+        run("m15_ed", {hx(k2), hx(kp2), hx(ang)}); }
+      if (kp2 > 0) {
+        EllipticFunction e0(k2, 0, kp2, 1);
+        double x = r.irange(0, 2) ? r.range(-6, 6) * (r.coin() ? e0.E() : e0.K()) : r.range(-1, 1) * std::pow(10.0, -r.range(0, 20));
+        if (r.irange(0, 9) == 0) x = r.irange(-4, 4) * e0.E();
+        if (std::isfinite(x)) { run("m15_jac", {hx(k2), hx(kp2), hx(x)}); double tau = r.range(-M_PI, M_PI); run("m15_einv", {hx(k2), hx(kp2), hx(x), hx(std::sin(tau)), hx(std::cos(tau))}); }
+      } else run("m15_jac", {hx(k2), hx(kp2), hx(r.range(-30, 30))});
+    }
     if (i % 3 == 1 && kp2 > 0) {
       EllipticFunction e0(k2, 0, kp2, 1);
       double x = r.irange(0, 2) ? r.range(-6, 6) * (r.coin() ? e0.E() : e0.K()) : r.range(-1, 1) * std::pow(10.0, -r.range(0, 20));
@@ -643,7 +695,12 @@ void gv::generate(const std::string& tier, uint64_t seed) {
     }
   }
   // k2 = 1 exactly
-  for (int i = 0; i < (th ? 200 : 20); ++i) { double phi = r.range(-1.5, 1.5); stratum("k2=1"); run("ellinc", {hx(1.0), hx(0.0), hx(0.0), hx(1.0), hx(phi)}); run("ellcomp", {hx(1.0), hx(0.0), hx(0.0), hx(1.0)}); }
+  for (int i = 0; i < (th ? 200 : 20); ++i) { double phi = r.range(-1.5, 1.5); stratum("k2=1"); run("ellinc", {hx(1.0), hx(0.0), hx(0.0), hx(1.0), hx(phi)}); run("ellcomp", {hx(1.0), hx(0.0), hx(0.0), hx(1.0)});
+    run("m15_phi", {hx(1.0), hx(0.0), hx(0.0), hx(1.0), hx(phi)}); run("m15_jac", {hx(1.0), hx(0.0), hx(10 * phi)}); }
+  // special cases of Reset: k2, alpha2 in {0, 1} and the rejected parameters
+  for (double k2 : {0.0, 1.0, 0.5, -2.0, -0.0}) for (double a2 : {0.0, 1.0, 0.3, -3.0, 0.5}) { stratum("reset-special"); run("m15_reset", {hx(k2), hx(a2), hx(1 - k2), hx(1 - a2)}); run("m15_reset2", {hx(k2), hx(a2)}); }
+  run("m15_reset", {hx(1.5), hx(0.0), hx(-0.5), hx(1.0)}); run("m15_reset", {hx(0.5), hx(2.0), hx(0.5), hx(-1.0)}); run("m15_reset", {hx(0.5), hx(0.5), hx(-0.1), hx(0.5)}); run("m15_reset", {hx(0.5), hx(0.5), hx(0.5), hx(-0.1)});
+  run("m15_reset2", {hx(2.0), hx(0.0)}); run("m15_reset2", {hx(0.0), hx(2.0)});
   // --- Carlson's symmetric forms
   for (long i = 0; i < ncarl; ++i) {
     double sc = std::pow(10.0, r.range(-100, 100)) ; if (r.coin()) sc = 1;
@@ -656,6 +713,7 @@ void gv::generate(const std::string& tier, uint64_t seed) {
     stratum(st);
     run("carlson", {hx(x), hx(y), hx(z), hx(p)});
     if (i < 2) sample(current_op());
+    run("m15_carl", {hx(x), hx(y), hx(z), hx(p)});
   }
 }
 int main(int argc, char** argv) { return gv::main_(argc, argv); }
